@@ -9,7 +9,7 @@ ARROW = "⟶  "
 WORDS = ["foo", "bar", "x", "let", "=", "1", ";", "\t", "  ", "-- c", "++d", "@@ z", "\\ w", "日本", "é", "fn", "()", "{",
          "}", "a.b", "->", "commit", "diff", "Binary", "index"]
 PATHS = ["a.rs", "dir/b c.txt", "日本.md", "Makefile", "x-y.z", "src/lib.rs", "a/b/x", "w/in.py", "dé/ü.c", "n.txt"]
-KINDS = ["mod", "mod", "mod", "add", "del", "ren", "renmod", "copy", "mode", "modemod", "bin", "empty"]
+KINDS = ["mod", "mod", "mod", "add", "del", "ren", "renmod", "copy", "mode", "modemod", "bin", "bin2", "binadd", "empty"]
 
 
 def wid(t):
@@ -109,6 +109,12 @@ def make_section(kind, p, q, hunks):
         head = [f"diff --git a/{p} b/{p}", "old mode 100755", "new mode 100644", "index 1111111..2222222", f"--- a/{p}", f"+++ b/{p}"]
     elif kind == "bin":
         head = [f"diff --git a/{p} b/{p}", "index 1111111..2222222 100644", f"Binary files a/{p} and b/{p} differ"]
+    elif kind == "bin2":
+        head = [f"diff --git a/{p} b/{q}", "index 1111111..2222222 100644", f"Binary files a/{p} and b/{q} differ"]
+        new = q
+    elif kind == "binadd":
+        head = [f"diff --git a/{p} b/{p}", "new file mode 100644", "index 0000000..2222222", f"Binary files /dev/null and b/{p} differ"]
+        old = "/dev/null"
     elif kind == "empty":
         head = [f"diff --git a/{p} b/{p}", "new file mode 100644", "index 0000000..e69de29"]
         old = "/dev/null"
